@@ -1156,7 +1156,15 @@ def check_dtor(ck, tree):
 def check_child_loops(ck, tree, name):
     """clear_recursive and copy_recursive visit all slotuse + 1 children"""
     fn = tree.one(name)
-    loops = [l for l in match.loops_in(fn.body) if mentions_member(l, "childid")]
+    loc = Locals(fn)
+
+    def over_children(l):
+        """the loop names childid itself, or runs a local cursor that was set up from childid before the loop"""
+        if mentions_member(l, "childid"):
+            return True
+        return any(z["k"] == "DeclRefExpr" and z["ref"].get("kind") == "local" and z["ref"]["id"] in loc.inits and
+                   ptr_to_ptr(z.get("ty")) and mentions_member(loc.expand(loc.inits[z["ref"]["id"]]), "childid") for z in walk(l))
+    loops = [l for l in match.loops_in(fn.body) if over_children(l)]
     if len(loops) != 1:
         raise ir.AnalysisBroken("%s: child loop not found" % fn.full)
     guarded(ck, "CHILD-RANGE", lambda: check_child_loop(ck, tree, fn, loops[0]))
@@ -1193,12 +1201,34 @@ def writes_local(z, did):
     return z["k"] == "UnaryOperator" and z.get("op") == "&" and ref_of(kids(z)[0]) == did
 
 
+def ptr_to_ptr(ty):
+    return (ty or "").replace("const", "").replace(" ", "").endswith("**")
+
+
 def check_child_loop(ck, tree, fn, loop):
-    """the loop is run on a small model: for slotuse = 0..4 it must touch exactly the children 0..slotuse"""
+    """the loop is run on a small model: for slotuse = 0..4 it must touch exactly the children 0..slotuse.  The model knows
+    for/while loops (test first) and do-while loops (body first), any number of cursors that advance in lock-step (an index,
+    or pointers into the child arrays, which the model places at address 0), each advanced once per iteration by a constant:
+    in the increment part, by the last statement of the body, or by a ++/-- inside the loop condition."""
     loc = Locals(fn)
     init, cond, inc, body = match.loop_parts(loop)
-    if cond is None or loop["k"] == "DoStmt":
-        und(fn, loop, "child loop without a leading condition")
+    if cond is None:
+        und(fn, loop, "child loop without a condition")
+    do_form = loop["k"] == "DoStmt"
+    jumps = [z for z in walk(body) if z["k"] in ("BreakStmt", "ReturnStmt", "GotoStmt", "CXXThrowExpr")]
+    if jumps:
+        und(fn, jumps[0], "the child loop is left from inside its body; the model does not follow that")
+
+    def init_expr(var):
+        """(start expression of the local, it is set in the loop's own init part)"""
+        if init is not None:
+            for z in walk(init):
+                if z["k"] == "VarDecl" and z.get("did") == var and kids(z) and kids(z)[0] is not None:
+                    return kids(z)[0], True
+                b = match.binop(z, ("=",)) if z["k"] == "BinaryOperator" else None
+                if b and ref_of(b[1]) == var:
+                    return b[2], True
+        return loc.inits.get(var), False
     subs = []
     for x in walk(body):
         ip = match.index_parts(x) if x["k"] in ("ArraySubscriptExpr", "CXXOperatorCallExpr") else None
@@ -1206,72 +1236,121 @@ def check_child_loop(ck, tree, fn, loop):
             subs.append(ip[1])
         # pointer form: *c with c running over the child array (the model places childid at address 0)
         dp = match.deref_of(x) if x["k"] == "UnaryOperator" else None
-        if dp is not None and ref_of(dp) is not None and (strip_casts(dp).get("ty") or "").replace(" ", "").endswith("**") and \
-                init is not None and mentions_member(init, "childid"):
-            subs.append(dp)
+        if dp is not None and ref_of(dp) is not None and ptr_to_ptr(strip_casts(dp).get("ty")):
+            start_e = init_expr(ref_of(dp))[0]
+            if start_e is not None and mentions_member(loc.expand(start_e), "childid"):
+                subs.append(dp)
     if not subs:
         und(fn, loop, "the loop does not index childid[] directly")
-    # the induction variable: the local that the condition and every subscript share
-    cands = None
-    for e in [cond] + subs:
-        ds = {z["ref"]["id"] for z in walk(loc.expand(e)) if z["k"] == "DeclRefExpr" and z["ref"].get("kind") == "local" and
-              not loc.stable(z["ref"]["id"])}
-        cands = ds if cands is None else cands & ds
-    if not cands or len(cands) != 1:
-        und(fn, loop, "the induction variable of the child loop is not identified")
-    var = list(cands)[0]
-    vname = [z["ref"]["name"] for z in walk(cond) if z["k"] == "DeclRefExpr" and z["ref"]["id"] == var]
-    vname = vname[0] if vname else [z["ref"]["name"] for e in subs for z in walk(loc.expand(e)) if z["k"] == "DeclRefExpr" and z["ref"]["id"] == var][0]
-    # start value
-    start = None
+    # the induction variables: the locals that change, in the condition and in the subscripts
+    names = {}
 
-    def start_value(e):
-        """the start value on each model (it may depend on the fill: a loop that runs downwards)"""
+    def unstable(e):
+        out = set()
+        for z in walk(loc.expand(e)):
+            if z["k"] == "DeclRefExpr" and z["ref"].get("kind") == "local" and not loc.stable(z["ref"]["id"]):
+                out.add(z["ref"]["id"])
+                names[z["ref"]["id"]] = z["ref"]["name"]
+        return out
+    cvars = unstable(cond)
+    svars = [unstable(e) for e in subs]
+    if not cvars or any(len(v) != 1 for v in svars):
+        und(fn, loop, "the induction variable of the child loop is not identified")
+    ivars = sorted(cvars.union(*svars))
+    if len(set(names[v] for v in ivars)) != len(ivars) or any(names[v] in ("slotuse", "childid") for v in ivars):
+        und(fn, loop, "the names of the induction variables clash on the model")
+    # start values (they may depend on the fill: a loop that runs downwards)
+    start = {}
+    for var in ivars:
+        e, own = init_expr(var)
+        if e is None:
+            und(fn, loop, "start value of the child loop is not understood")
+        if not own:
+            decl = [z for z in fn.nodes() if z["k"] == "VarDecl" and z.get("did") == var]
+            if not decl or any(q is decl[0] for q in walk(loop)):
+                und(fn, loop, "an induction variable is declared inside the loop")
+            outside = [z for z in fn.nodes() if writes_local(z, var) and not any(q is z for q in walk(loop))]
+            if outside:
+                und(fn, outside[0], "the induction variable is written outside the loop")
+            par = fn.parent(loop)
+            while par is not None:
+                if par["k"] in ("WhileStmt", "ForStmt", "DoStmt", "CXXForRangeStmt", "SwitchStmt", "LabelStmt"):
+                    und(fn, loop, "the child loop is nested in another loop and its start value is set outside")
+                par = fn.parent(par)
         try:
-            return [B.eval_int(loc.expand(e), {"slotuse": S, "childid": 0}) for S in range(0, 5)]
+            start[var] = [B.eval_int(loc.expand(e), {"slotuse": S, "childid": 0}) for S in range(0, 5)]
         except Und:
-            return None
-    if init is not None:
-        for z in walk(init):
-            if z["k"] == "VarDecl" and z.get("did") == var and kids(z):
-                start = start_value(kids(z)[0])
-            b = match.binop(z, ("=",)) if z["k"] == "BinaryOperator" else None
-            if b and ref_of(b[1]) == var:
-                start = start_value(b[2])
-    elif var in loc.inits:
-        start = start_value(loc.inits[var])
-        outside = [z for z in fn.nodes() if writes_local(z, var) and not any(q is z for q in walk(loop))]
-        if outside:
-            und(fn, outside[0], "the induction variable is written outside the loop")
-    if start is None or any(x is None for x in start):
-        und(fn, loop, "start value of the child loop is not understood")
-    # the step: one update per iteration, after every use of the index
-    if inc is not None:
-        steps = [z for z in walk(inc) if writes_local(z, var)]
-        inner_w = [z for z in walk(body) if writes_local(z, var)]
-        if len(steps) != 1 or inner_w:
-            und(fn, loop, "the induction variable is updated more than once per iteration")
-        step = step_of(steps[0], var)
-    else:
-        stmts = [s for s in (kids(body) if body is not None and body["k"] == "CompoundStmt" else [body]) if s is not None]
-        ws = [z for z in walk(body) if writes_local(z, var)]
-        if len(ws) != 1 or not stmts or not any(q is ws[0] for q in walk(stmts[-1])) or stmts[-1]["k"] in CONTROL:
-            und(fn, loop, "the induction variable must be advanced once, by the last statement of the loop body")
-        if any(z["k"] in ("ContinueStmt",) for z in walk(body)):
-            und(fn, loop, "continue in a while-form child loop")
-        step = step_of(ws[0], var)
-    if step is None or step == 0:
-        und(fn, loop, "step of the child loop is not a constant")
-    condx = loc.expand(cond)
+            und(fn, loop, "start value of the child loop is not understood")
+        if any(x is None for x in start[var]):
+            und(fn, loop, "start value of the child loop is not understood")
+    # the steps: one update per variable and iteration, after every use of the index
+    step, where = {}, {}
+    condx = cond
+    stmts = [s for s in (kids(body) if body is not None and body["k"] == "CompoundStmt" else [body]) if s is not None]
+    for var in ivars:
+        w_inc = [z for z in walk(inc) if writes_local(z, var)] if inc is not None else []
+        w_body = [z for z in walk(body) if writes_local(z, var)]
+        w_cond = [z for z in walk(cond) if writes_local(z, var)]
+        if len(w_inc) + len(w_body) + len(w_cond) != 1:
+            und(fn, loop, "the induction variable is not updated exactly once per iteration")
+        if w_inc:
+            z, where[var] = w_inc[0], "end"
+        elif w_body:
+            z, where[var] = w_body[0], "end"
+            at = [i for i, s in enumerate(stmts) if any(q is z for q in walk(s))]
+            head = stmts[:at[0] + 1] if at else []
+            tail = stmts[at[0]:] if at else []
+            plain = lambda ss: ss and not any(s["k"] in CONTROL or s["k"].endswith("Stmt") for s in ss)      # noqa: E731
+            uses = lambda ss: any(any(q is x for s in ss for q in walk(s)) for x in subs)                    # noqa: E731
+            if plain(head) and not uses(head):
+                where[var] = "begin"             # advanced by the first statements of the body, before any use of the index
+            elif not plain(tail):
+                und(fn, loop, "the induction variable must be advanced once, by the first or the last statements of the loop body")
+            elif uses(tail):
+                und(fn, loop, "the induction variable is advanced between two uses of the index in one iteration")
+            if any(q["k"] == "ContinueStmt" for q in walk(body)):
+                und(fn, loop, "continue in a child loop that advances its index in the body")
+        else:
+            z = w_cond[0]
+            u = match.unop(z, ("++", "--")) if z["k"] == "UnaryOperator" else None
+            uses = [q for q in walk(cond) if q["k"] == "DeclRefExpr" and q["ref"]["id"] == var]
+            if u is None or len(uses) != 1 or any(q["k"] in ("ConditionalOperator",) or (q["k"] == "BinaryOperator" and q.get("op") in ("&&", "||", ","))
+                                                  for q in walk(cond)):
+                und(fn, loop, "the induction variable is advanced inside the loop condition in a form that is not understood")
+            where[var] = "post" if u[2] else "pre"
+            condx = replace_node(condx, z, u[1])
+        step[var] = step_of(z, var)
+        if step[var] is None or step[var] == 0:
+            und(fn, loop, "step of the child loop is not a constant")
+    condx = loc.expand(condx)
     subx = [loc.expand(e) for e in subs]
     for S in range(0, 5):
-        i, visited = start[S], []
+        vals = {v: start[v][S] for v in ivars}
+        visited, first = [], True
+
+        def env():
+            e = {"slotuse": S, "childid": 0}
+            e.update({names[v]: vals[v] for v in ivars})
+            return e
         for _ in range(40):
-            env = {"slotuse": S, "childid": 0, vname: i}
-            if not B.eval_int(condx, env):
-                break
-            visited.append(sorted({B.eval_int(e, env) for e in subx}))
-            i += step
+            if not (do_form and first):
+                for v in ivars:
+                    if where[v] == "pre":
+                        vals[v] += step[v]
+                go = B.eval_int(condx, env())
+                for v in ivars:
+                    if where[v] == "post":
+                        vals[v] += step[v]
+                if not go:
+                    break
+            first = False
+            for v in ivars:
+                if where[v] == "begin":
+                    vals[v] += step[v]
+            visited.append(sorted({B.eval_int(e, env()) for e in subx}))
+            for v in ivars:
+                if where[v] == "end":
+                    vals[v] += step[v]
         else:
             und(fn, loop, "child loop does not terminate on the model slotuse=%d" % S)
         if sorted(visited) != [[c] for c in range(S + 1)]:           # each child once; the order is free
@@ -1508,6 +1587,103 @@ def check_size(ck, tree):
             guarded(ck, "SIZE-PAIR", lambda: check_size_fn(ck, tree, fn, name, want))
 
 
+def replace_node(n, target, repl):
+    """copy of the tree n in which the node target (by identity) is replaced"""
+    if n is target:
+        return repl
+    if n is None or "ch" not in n:
+        return n
+    out = dict(n)
+    out["ch"] = [replace_node(c, target, repl) for c in n["ch"]]
+    return out
+
+
+def counter_amount(z):
+    """the amount operand of a counter update f += e / f -= e / f = f + e / f = e + f / f = f - e (node, not value)"""
+    b = match.binop(z, ("=", "+=", "-=")) if z["k"] in ("BinaryOperator", "CompoundAssignOperator") else None
+    if not b or not stats_field(b[1]):
+        return None
+    if b[0] in ("+=", "-="):
+        return b[2]
+    r = match.binop(strip_casts(b[2]), ("+", "-"))
+    if r and strip_casts(b[2])["k"] == "BinaryOperator":
+        if stats_field(r[1]) == stats_field(b[1]):
+            return r[2]
+        if r[0] == "+" and stats_field(r[2]) == stats_field(b[1]):
+            return r[1]
+    return None
+
+
+def split_counter_conditionals(body, field, tree=None):
+    """`stats_.<field> += c ? a : b;` is presented to the path exploration as `if (c) stats_.<field> += a; else stats_.<field> += b;`
+    and `stats_.<field> += <bool b>;` as `if (b) ... += 1; else ... += 0;` (the lvalue this->stats_.<field> has no side effects
+    and the condition is evaluated exactly once in both forms).  Only whole expression statements are rewritten."""
+    counter = [0]
+
+    def fresh():
+        counter[0] -= 1
+        return counter[0] - 5000
+
+    def top_write(stmt):
+        e = stmt
+        while e is not None and e["k"] in CASTS + ("ExprWithCleanups", "ParenExpr") and kids(e):
+            e = kids(e)[0]
+        if e is None or e["k"] not in ("BinaryOperator", "CompoundAssignOperator"):
+            return None
+        w = counter_write(e)
+        return e if w and w[0] == field and w[1] in ("+", "-") and w[2] is None else None
+
+    def quiet(c):
+        """the condition moves out of the statement the path evaluation looks at: it must not do anything itself"""
+        for x in walk(c):
+            if x["k"] in ("UnaryOperator", "BinaryOperator", "CompoundAssignOperator", "CXXOperatorCallExpr") and \
+                    (x.get("op") in ("++", "--") or ((x.get("op") or "").endswith("=") and x.get("op") not in ("==", "!=", "<=", ">="))):
+                return False
+            if is_call(x) and (tree is None or (x["callee"].get("did") in tree.by_did and
+                                                reaches(tree, tree.by_did[x["callee"]["did"]], lambda q: counter_write(q) is not None))):
+                return False
+        return True
+
+    def split(stmt, depth=0):
+        z = top_write(stmt) if depth < 4 and stmt is not None and not stmt["k"].endswith("Stmt") else None
+        amount = counter_amount(z) if z is not None else None
+        if amount is None:
+            return stmt
+        q, through_bool_cast = amount, False
+        while q is not None and (q["k"] in CASTS or q["k"] == "ParenExpr") and kids(q):
+            inner = kids(q)[0]
+            if q["k"] in CASTS and q.get("cast") == "IntegralCast" and inner is not None and \
+                    (inner.get("ty") or "").replace("const ", "") == "bool":
+                through_bool_cast = True
+            q = inner
+        if q is None:
+            return stmt
+        if q["k"] == "ConditionalOperator" and len(kids(q)) == 3 and not through_bool_cast and quiet(kids(q)[0]):
+            c, a, b = kids(q)
+            return {"k": "IfStmt", "id": fresh(), "l": stmt.get("l"),
+                    "ch": [c, split(replace_node(stmt, amount, a), depth + 1), split(replace_node(stmt, amount, b), depth + 1)]}
+        if through_bool_cast and (q.get("ty") or "").replace("const ", "") == "bool" and quiet(q):
+            lit = lambda v: {"k": "IntegerLiteral", "val": v, "id": fresh(), "l": q.get("l"), "ty": "int"}     # noqa: E731
+            return {"k": "IfStmt", "id": fresh(), "l": stmt.get("l"),
+                    "ch": [q, replace_node(stmt, amount, lit(1)), replace_node(stmt, amount, lit(0))]}
+        return stmt
+
+    def rewrite(n):
+        if n is None or "ch" not in n:
+            return n
+        out = dict(n)
+        ch = []
+        for c in n["ch"]:
+            if n["k"] in ("CompoundStmt", "IfStmt") and not (n["k"] == "IfStmt" and c is n["ch"][0]) and c is not None and \
+                    not c["k"].endswith("Stmt"):
+                ch.append(split(c))
+            else:
+                ch.append(rewrite(c))
+        out["ch"] = ch
+        return out
+    return rewrite(body)
+
+
 def check_size_fn(ck, tree, fn, name, want):
     loc = Locals(fn)
     registry = {}
@@ -1524,7 +1700,7 @@ def check_size_fn(ck, tree, fn, name, want):
         elif is_call(n1, "has") and mentions_ref(n1, "btree_not_found"):
             return "done", True
         return opaque_atom(n, registry)
-    leaves = dtable.explore(fn.body, with_bool_cmp(atomize), fn)
+    leaves = dtable.explore(split_counter_conditionals(fn.body, "size", tree), with_bool_cmp(atomize), fn)
     bad = None
     for lf in leaves:
         nodes = list(path_nodes(lf))
@@ -1589,6 +1765,26 @@ class ChainShape(B.Shape):
             s1.trace.append(("leafnode", True))
             s2.trace.append(("leafnode", False))
             return [(s1, True), (s2, False)]
+        # n == tail_leaf_ / n == head_leaf_ while the owner still has its value from the entry of the fragment: the chain is
+        # consistent on entry (the clause being checked, assumed inductively), so n is the tail iff n had no successor and the
+        # head iff it had no predecessor
+        b = match.binop(c0, ("==", "!=")) if c0["k"] in ("BinaryOperator", "UnaryOperator") else None
+        if b and getattr(self, "entry", None):
+            for x, y in ((b[1], b[2]), (b[2], b[1])):
+                owner = match.this_field(y)
+                if owner not in ("tail_leaf_", "head_leaf_") or st.tf.get(owner) not in (None, "old:" + owner):
+                    continue
+                sym = self.ev(x, st)
+                nb = self.entry.get((sym, "next_leaf" if owner == "tail_leaf_" else "prev_leaf"))
+                if nb is None:
+                    continue
+                isnull = st.is_null(nb)
+                if isnull is not None:
+                    return [(st, isnull == (b[0] == "=="))]
+                s1, s2 = st.clone(), st.clone()
+                s1.null[nb] = True
+                s2.null[nb] = False
+                return [(s1, b[0] == "=="), (s2, b[0] != "==")]
         res = B.Shape.cond(self, c, st)
         if len(res) == 2 and const_int(c0) is None:
             pt = match.ptr_truth(c) or match.ptr_truth(c0)
@@ -1651,6 +1847,7 @@ def run_shape(fn, stmts, setup, tree=None):
     sh = ChainShape(fn, tree=tree)
     st = B.ShapeState()
     setup(st)
+    sh.entry = dict(st.heap)         # the links as they are when the fragment is entered
     chain_preconditions(fn, stmts, tree)
     # loops inside the fragment must not touch the chain
     for s in stmts:
@@ -2187,15 +2384,6 @@ def check_underflow(ck, tree, fn):
         return B.check_underflow(ck, tree, fn)
     ids = {v["id"] for v in todo}
 
-    def replace_node(n, target, repl):
-        if n is target:
-            return repl
-        if n is None or "ch" not in n:
-            return n
-        out = dict(n)
-        out["ch"] = [replace_node(c, target, repl) for c in n["ch"]]
-        return out
-
     def split_cond(stmt, depth=0):
         q = rebal_cond(stmt) if depth < 4 else None
         if q is None:
@@ -2255,6 +2443,7 @@ def run(ck):
     ck.assumptions += [
         "B+ tree shape facts used to prune impossible underflow situations (see C01)",
         "the alias model treats the successor/tail pointers as one symbolic node that may be null; element moves inside loops do not touch chain pointers (checked)",
+        "the leaf chain is consistent when a splice is entered (the clause itself, assumed inductively): a leaf equals tail_leaf_ iff it has no successor, head_leaf_ iff it has no predecessor",
         "SEP-UPDATE evaluates integer tests on the model parent->slotuse = 2, parentslot in 0..2, leaf fill after removal in 0..2",
     ]
     n_trees = 0
